@@ -171,12 +171,20 @@ def rule_admission_order(ctx):
                "PoolWatch::remove runs on a path where insert failed (e.g. a rejected duplicate): it would unregister the live connection of the same identity", f.loc(rem["t"].get("ln")))
         # post-dominance on normal completion
         starts = [t for _, t in ins_edges]
-        r = cfg.reach_from(starts, avoid_blocks=frozenset([rem["bb"]]))
+        r = cfg.reach_from_sensitive(starts, avoid_blocks=frozenset([rem["bb"]]))
         okp = not (set(cfg.returns()) & r)
         ctx.ob(R, "%s remove after run" % name, okp, "every normally completing path from a successful insert passes remove" if okp else "a path returns after insert without removing the pool entry", f.loc())
         ki = T.args_of(ins)[1]
         kr = T.args_of(rem)[1]
-        ctx.ob(R, "%s same key" % name, ki == kr, "insert and remove use the same key term (%s)" % show(ki)[:60] if ki == kr else "insert key %s, remove key %s" % (show(ki)[:60], show(kr)[:60]), f.loc())
+        same = ki == kr
+        if not same:
+            flow = Q.LocalFlow(f)
+            li = flow._local_op(ins["t"]["args"][1])
+            lr = flow._local_op(rem["t"]["args"][1])
+            if li is not None and lr is not None:
+                common = flow.closure(li) & flow.closure(lr)
+                same = any("PublicKey" in f.locals[x].s and not (1 <= x <= f.argc) and "Schedule" not in f.locals[x].s and "Config" not in f.locals[x].s for x in common)
+        ctx.ob(R, "%s same key" % name, same, "insert and remove use the same key (%s)" % show(ki)[:60] if same else "insert key %s, remove key %s" % (show(ki)[:60], show(kr)[:60]), f.loc())
     ctx.floor(R, "stream runners", n, 4)
 
 
@@ -267,6 +275,11 @@ def rule_pool_construction(ctx):
         s = show(allowed)
         if net == "consensus":
             ok = extra == ("const", 0) and any(x[0] == "call" and x[1].endswith("Schedule::keys") for x in subterms(allowed)) and any(x[0] == "call" and x[1].endswith("validator_schedule") for x in subterms(allowed))
+            if not ok and extra == ("const", 0):
+                # the committee set may be filled by a loop instead of an iterator chain: derives-from flow
+                flow = Q.LocalFlow(f)
+                la = flow._local_op(c["t"]["args"][0])
+                ok = la is not None and flow.derives_from_call(la, lambda q: q.endswith("Schedule::keys") or q.endswith("Schedule::iter")) and flow.derives_from_call(la, lambda q: q.endswith("validator_schedule"))
             exp = "(validator_schedule().keys(), 0)"
         else:
             if extra == ("const", 0):
